@@ -16,8 +16,21 @@ TRUSTED_COMMON = [
 
 
 def lean_step(res, prop_module, thorough=False, extra_allowed=(), extra_targets=()):
-    """Build the property module and the driver, audit it.  A failure is a violation with
+    """Build the property module(s) and the driver, audit them.  A failure is a violation with
     no failing input (the caller may add a search)."""
+    if isinstance(prop_module, (list, tuple)):
+        ok = True
+        acc = {"obligations": 0, "discharged": 0, "theorems": [], "axioms_used": set(), "cmds": []}
+        for m in prop_module:
+            ok = lean_step(res, m, thorough, extra_allowed, extra_targets) and ok
+            acc["obligations"] += res.cov.get("obligations", 0)
+            acc["discharged"] += res.cov.get("discharged", 0)
+            acc["theorems"] += res.cov.get("theorems", [])
+            acc["axioms_used"] |= set(res.cov.get("axioms_used", []))
+            acc["cmds"].append(res.cov.get("checker_cmd", ""))
+        res.cov.update({"obligations": acc["obligations"], "discharged": acc["discharged"], "theorems": acc["theorems"],
+                        "axioms_used": sorted(acc["axioms_used"]), "checker_cmd": " ; ".join(acc["cmds"])})
+        return ok
     ok = True
     try:
         vlib.lake_build([prop_module, "cdsdriver"] + list(extra_targets))
@@ -168,10 +181,15 @@ def build_pure(name, sources, with_libcds=False, extra=()):
     return exe
 
 
-def tie_D(res, exe, args, driver_cmd, compare, label, timeout=600):
+def tie_D(res, exe, args, driver_cmd, compare, label, timeout=120):
     """Differential evaluation: the C++ driver prints `<input> -> <outputs>`; the Lean definitions are
     evaluated on the same inputs; `compare(input, impl_out, model_out)` returns None or a mismatch text."""
-    rc, out, err = vlib.sh([exe] + args, timeout=timeout)
+    try:
+        rc, out, err = vlib.sh([exe] + args, timeout=timeout)
+    except subprocess.TimeoutExpired as ex:
+        partial = ex.stdout.decode() if isinstance(ex.stdout, bytes) else (ex.stdout or "")
+        res.violation("%s:driver-hang" % label, {"kind": "hang", "cmd": [exe] + args, "last_output": partial[-1500:]})
+        return []
     if rc != 0:
         res.violation("%s:driver-crash" % label, {"kind": "crash", "cmd": [exe] + args, "stderr": err[-2000:]})
         return []
@@ -189,6 +207,11 @@ def tie_D(res, exe, args, driver_cmd, compare, label, timeout=600):
         bad = compare(inp, impl.split(), m.split())
         if bad:
             fn = inp.split()[0]
+            if bad.startswith("@"):          # the oracle names the class of the failure itself
+                cls, _, bad = bad[1:].partition(": ")
+                res.violation("%s:%s:%s" % (label, fn, cls),
+                              {"kind": "pure-input", "function": fn, "input": inp, "impl": impl.strip(), "model": m, "why": bad})
+                continue
             res.violation("%s:model-vs-impl:%s" % (label, fn),
                           {"kind": "pure-input", "function": fn, "input": inp, "impl": impl.strip(), "model": m, "why": bad})
     if len(mout) - 1 < len(lines) and not (len(mout) == len(lines)):
